@@ -111,3 +111,15 @@ Example C05_classes_in_second_block :
   /\ find_table GDEF [TBlock [104]%Z []; TBlock GDEF [TClassDef 1]] = Some [TClassDef 1%Z].
 Proof. exact classes_in_second_block. Qed.
 Print Assumptions C05_classes_in_second_block.
+
+(* ---- kerning is registered through featureWriters/ast.addLookupReferences: AS TRANSLATED from /repo's current source
+   (Generated/FeaGen.v, Fea/LookupRefsTied.v), the script's default language system and EVERY language listed for it -- wherever
+   `dflt` stands in the list -- reach exactly the kerning lookups ---- *)
+From Coq Require Import List.
+From U2F Require Import Fea.LookupRefs Generated.FeaGen Fea.LookupRefsTied.
+
+Theorem C05_code_kerning_lookups_reach_every_listed_language : forall lookups s languages l,
+  s <> nil -> l = dflt \/ In l languages ->
+  ls_get (read (tr_add_lookup_refs nil lookups (Some s) languages false)) l = Some lookups.
+Proof. exact code_every_listed_language_reaches_the_lookups. Qed.
+Print Assumptions C05_code_kerning_lookups_reach_every_listed_language.
